@@ -45,6 +45,15 @@ def futex_leafs(state):
             return ret() if callable(ret) else ret
         return f
 
+    def load(name, ty):
+        # every load of the cell is a value of its own (another thread may have stored in between); the symbol is recorded in the event
+        def f(interp, args, node):
+            k = state['loads'] = state.get('loads', 0) + 1
+            v = unk(name if k == 1 else '%s-%d' % (name, k), ty)
+            interp.event('load-expected', tuple(pe._hashable(a) for a in args) + (repr(v),), node)
+            return v
+        return f
+
     def calloc(interp, args, node):
         state['allocs'] += 1
         k = state['allocs']
@@ -99,8 +108,8 @@ def futex_leafs(state):
         'pthread_cond_destroy': ev('cond_destroy', 0),
         'calloc': calloc, 'free': ev('free'),
         'trap': ev('trap'),
-        'i32_atomic_load': ev('load-expected', lambda: unk('loaded32', 'unsigned int')),
-        'i64_atomic_load': ev('load-expected', lambda: unk('loaded64', 'unsigned long long')),
+        'i32_atomic_load': load('loaded32', 'unsigned int'),
+        'i64_atomic_load': load('loaded64', 'unsigned long long'),
         'mapGet': map_get, 'mapInsert': map_insert,
         'mapRemove': ev('mapRemove', 0), 'mapInitialize': ev('mapInitialize'),
         'listPrepend': lambda i, a, n: (i.event('listPrepend', tuple(pe._hashable(x) for x in a), n), a[1])[1],
@@ -152,7 +161,7 @@ def wait_paths(tu, timeout_negative):
 
     def fresh():
         state.clear()
-        state.update(allocs=0, waits=0)
+        state.update(allocs=0, waits=0, loads=0)
     it = pe.Interp([tu], futex_leafs(state), max_paths=2000)
     it.cur_tu = tu
 
@@ -196,7 +205,7 @@ def check_wait(chk, tu):
             chk.expect(held_end == 0, 'R17.2', 'balanced:' + tag,
                        'wasmMemoryAtomicWait returns with the mutex %s on path %s' % ('held' if held_end > 0 else 'over-released', cond), site)
             bad = [(n, l) for i, n, a, l, h in tr if h <= 0 and (
-                n in FUTEX_OPS or n in ('cond_wait', 'cond_timedwait', 'load-expected') or
+                n in FUTEX_OPS or n in ('cond_wait', 'cond_timedwait') or
                 (n in ('read', 'write') and ((a[0] == 'mem' and a[1] in ('futex', 'futexFree')) or (a[0] == 'wait' and a[1] == 'status'))))]
             chk.expect(not bad, 'R17.2', 'locked:' + tag,
                        'futex state is accessed without mem->mutex held: %r (path %s)' % (bad[:3], cond), site,
@@ -207,10 +216,22 @@ def check_wait(chk, tu):
                            'trap is raised while mem->mutex is still held (the embedder handler does not return)', site, tr[ti][3])
             names = [n for i, n, a, l, h in tr]
             if 'listPrepend' in names:
-                a, b = names.index('load-expected') if 'load-expected' in names else -1, names.index('listPrepend')
-                chk.expect(a >= 0 and 'unlock' not in names[a:b], 'R17.3', 'check-then-enqueue:' + tag,
-                           'the mutex is released between loading the expected value and enqueuing the waiter (a notify in '
-                           'between would be lost)', site)
+                # the decision to sleep rests on the last load of the cell before the waiter is enqueued: that load is made with the mutex
+                # held, the mutex stays held up to the enqueue, and it is this value that was found equal to `expect`.  An earlier load
+                # (a lock-free fast path for the "not-equal" answer) decides nothing here
+                b = names.index('listPrepend')
+                lds = [i for i, n in enumerate(names[:b]) if n == 'load-expected']
+                a = lds[-1] if lds else -1
+                chk.expect(a >= 0 and tr[a][4] > 0 and 'unlock' not in names[a:b], 'R17.3', 'check-then-enqueue:' + tag,
+                           'the cell is %s and the waiter is enqueued%s: a store and notify in between would be lost' % (
+                               'never loaded' if a < 0 else 'last loaded without mem->mutex held' if tr[a][4] <= 0 else 'loaded under the mutex',
+                               '' if a < 0 or tr[a][4] <= 0 else ' after the mutex was released in between'), site, tr[a][3] if a >= 0 else None)
+                if a >= 0:
+                    sym = tr[a][2][-1]
+                    used = any(sym in [repr(x) for x in pe.sym_walk(c)] and unk('expect') in list(pe.sym_walk(c)) for c, t, _ in p.decisions)
+                    chk.expect(used, 'R17.3', 'sleeps-on-locked-value:' + tag,
+                               'the waiter is enqueued without the value loaded under the mutex (%s) having been compared with the expected value: '
+                               'the comparison that decided to sleep used a value loaded before the mutex was taken' % sym, site, tr[a][3])
                 # R17.4
                 waits = [i for i, n in enumerate(names) if n in ('cond_wait', 'cond_timedwait')]
                 chk.expect(bool(waits), 'R17.4', 'blocks:' + tag, 'waiter is enqueued but never blocks', site)
